@@ -14,14 +14,14 @@ CHECKS = {
                 "over a symbolic wire with an injective chunk-signature chain, embedded in a model of SetupServer / "
                 "MakeSignatureMiddleware (is the decoder installed?) and of the handler's commit-on-EOF / rollback-on-error. "
                 "TLC proves StoredIsDecoded and four auxiliary invariants on the intended design for every case (payload 0..3 "
-                "units, all chunkings into <=3 chunks, 4 streaming modes x 5 trailer algorithms x 2 trailer framings, 14 wire "
+                "units, all chunkings into <=3 chunks, 4 streaming modes x 5 trailer algorithms x 2 trailer framings, 13 wire "
                 "mutations at every position, auth enabled/disabled/anonymous, PutObject/UploadPart, key empty/occupied). "
                 "TLC emits the case space and the wire of every executed case; the Go driver concretises the wire into bytes "
                 "with real SigV4 chunk signatures and checksums, sends it to the real handler stack (server.SetupServer, "
                 "sqlite metadatapart storage), observes status and a following GetObject, and TLC validates every observation "
                 "against the model of the code and evaluates the property on it. Model checking is exhaustive over the symbolic "
-                "space; conformance runs a seeded stratified sample of it (600 quick / 12 000 thorough, every (mutation, mode, auth) "
-                "stratum covered).",
+                "space; conformance runs a seeded stratified sample of it (600 quick / 30 000 thorough = every authenticated case plus a sample of the "
+                "unauthenticated ones; every (mutation, mode, auth) stratum covered).",
         "note": "symbolic signatures/checksums are injective (no HMAC/CRC collisions); one symbolic unit = one byte or one "
                 "seeded block of 2..65537 bytes; framing mutations only at unit scale (chunk <= consumer read buffer); "
                 "'tampered' means: contradicts integrity evidence the configuration can verify (chunk signatures need "
@@ -97,7 +97,7 @@ def run(ctx):
     if not factors:
         raise vlib.Infra("factor generation failed\n%s" % r.output[-2000:])
     space = expand(factors)
-    n = ctx.pick(600, 12000)
+    n = ctx.pick(600, 30000)
     picked = stratified(space, n, rng) if n < len(space) else space
     for i, c in enumerate(picked):
         c["l"] = i + 1
@@ -158,6 +158,8 @@ def run(ctx):
     ctx.extra["decoder_trail_coverage"] = sorted(seen)
     ctx.extra["distinct_nontrivial"] = sum(1 for r in trace if nontrivial(r))
     ctx.extra["exhaustive"] = (len(picked) == len(space))
+    ctx.extra["all_authenticated_cases_executed"] = (
+        sum(1 for c in picked if c["auth"] == "enabled") == sum(1 for c in space if c["auth"] == "enabled"))
     per = {}
     for r in trace:
         per[r["mut"]] = per.get(r["mut"], 0) + 1
